@@ -229,6 +229,9 @@ func visitInstr(fr *frame, instr ssa.Instruction) continuation {
 		chanSend(fr, fr.get(instr.Chan).(*channel), fr.get(instr.X))
 
 	case *ssa.Store:
+		if fr.p.race != nil {
+			fr.raceNoteCells(mustDeref(instr.Addr.Type()), fr.derefPtr(fr.get(instr.Addr)), true, describeAddr(instr.Addr))
+		}
 		store(mustDeref(instr.Addr.Type()), fr.derefPtr(fr.get(instr.Addr)), fr.get(instr.Val))
 
 	case *ssa.If:
@@ -289,6 +292,9 @@ func visitInstr(fr *frame, instr ssa.Instruction) continuation {
 		fr.env[fr.idx[instr]] = newOmap()
 
 	case *ssa.Range:
+		if m, ok := fr.get(instr.X).(*omap); ok && fr.p.race != nil && m != nil {
+			fr.raceNote(m, false, "map "+describeAddr(instr.X))
+		}
 		fr.env[fr.idx[instr]] = rangeIter(fr, fr.get(instr.X), instr.X.Type())
 
 	case *ssa.Next:
@@ -336,6 +342,9 @@ func visitInstr(fr *frame, instr ssa.Instruction) continuation {
 			fr.runtimePanic("assignment to entry in nil map")
 		}
 		key := fr.concreteKey(fr.get(instr.Key))
+		if fr.p.race != nil {
+			fr.raceNote(m, true, "map "+describeAddr(instr.Map))
+		}
 		m.set(key, fr.get(instr.Value))
 
 	case *ssa.TypeAssert:
